@@ -156,7 +156,8 @@ func (v *LogScopeVariables) Get(s context.Scope, name string) (value.Value, erro
 	case REQ_BACKEND_NAME:
 		var name string
 		if v.ctx.Backend != nil {
-			name = v.ctx.Backend.Value.Name.Value
+			// The backend is a director before the backend is determined
+			name = v.ctx.Backend.String()
 		}
 		return &value.String{Value: name}, nil
 	case REQ_BACKEND_PORT:
